@@ -171,6 +171,45 @@ pub fn c05(tier: Tier) -> Vec<Case> {
             }
         }
     }
+    // rules that are also pulled in with `>`: memoizing them must not change what the include site does
+    {
+        let inputs = memo_inputs_ws(tier);
+        let chk = Directive::Check(vec!["hrt".into(), "user".into(), "chk_nob2".into()]);
+        let a_bodies = vec![seq(vec![field("x", "B"), lit("c"), field("y", "B")]), seq(vec![field("x", "B"), opt(lit("c"))])];
+        let roots = vec![
+            choice(vec![seq(vec![lit("x"), inc("A"), lit("x")]), seq(vec![field("a", "A"), lit("c")]), seq(vec![lit("x"), field("b", "B")])]),
+            seq(vec![star(seq(vec![inc("A"), lit("x")])), opt(field("a", "A"))]),
+        ];
+        for r in &roots {
+            for ab in &a_bodies {
+                for a_noskip in [false, true] {
+                    for root_noskip in [false, true] {
+                        for a_check in [false, true] {
+                            let mut ad = dirs(a_noskip, &[]);
+                            if a_check {
+                                ad.push(chk.clone());
+                            }
+                            let g = Grammar {
+                                rules: vec![
+                                    Rule::normal("Root", dirs(root_noskip, &[Directive::Export, Directive::Position]), r.clone()),
+                                    Rule::normal("A", ad, ab.clone()),
+                                    Rule::normal("B", vec![Directive::NoSkipWs, Directive::String], seq(vec![lit("b"), opt(lit("b"))])),
+                                ],
+                            };
+                            if !wf::well_formed(&g) {
+                                continue;
+                            }
+                            let names = vec!["Root".to_string(), "A".to_string(), "B".to_string()];
+                            let grp = b.new_group();
+                            for (vi, mask) in subsets(3).into_iter().enumerate() {
+                                b.add_variant(grp, vi, "memo-subsets/included", with_memo(&g, &names, mask), inputs.clone(), &format!("mask{mask}"));
+                            }
+                        }
+                    }
+                }
+            }
+        }
+    }
     // long inputs: cache keys and offsets beyond 8 and 16 bits (short inputs first: histories use the first ones)
     {
         let mut inputs: Vec<String> = vec!["bx".into(), "bcx".into(), "bbc".into(), "cx".into()];
@@ -271,6 +310,23 @@ pub fn c06(tier: Tier) -> Vec<Case> {
     let mut b = Builder::new();
     for g in leftrec_memo_bases() {
         b.add("memo-probes/with-leftrec", with_probes(&g), InputSpec::Strings { alphabet: vec!['n', '+', '!', '('], max_len: if tier == Tier::Quick { 4 } else { 5 } });
+    }
+    // a memoized rule that is referenced only from inside lookaheads (keyword guards)
+    for k_body in [lit("bc"), seq(vec![lit("b"), lit("c")]), choice(vec![lit("c"), seq(vec![lit("b"), lit("b")])])] {
+        for root in [
+            choice(vec![seq(vec![not(rref("K")), lit("b"), lit("x")]), seq(vec![not(rref("K")), lit("b"), lit("c")]), seq(vec![not(rref("K")), lit("b")])]),
+            seq(vec![star(choice(vec![seq(vec![and(rref("K")), lit("b"), lit("c"), lit("x")]), seq(vec![and(rref("K")), lit("b")]), seq(vec![not(rref("K")), rref("char")])])), Expr::Eoi]),
+        ] {
+            let g = Grammar {
+                rules: vec![
+                    Rule::normal("Root", vec![Directive::Export, Directive::NoSkipWs], root.clone()),
+                    Rule::normal("K", vec![Directive::NoSkipWs, Directive::Memoize], k_body.clone()),
+                ],
+            };
+            if wf::well_formed(&g) {
+                b.add("memo-probes/lookahead-only", with_probes(&g), memo_inputs(tier));
+            }
+        }
     }
     // many distinct positions in one parse, then backtracking over all of them
     {
@@ -515,6 +571,10 @@ pub fn c10(tier: Tier) -> Vec<Case> {
             choice(vec![seq(vec![lit("b"), lit("b"), lit("c")]), lit("")]),
             opt(seq(vec![rref("X"), rref("X"), lit("a")])),
             not(seq(vec![lit("b"), lit("b"), lit("b")])),
+            opt(seq(vec![field("f", "X"), field("g", "X"), lit("a")])),
+            opt(seq(vec![field("f", "X"), opt(seq(vec![field("g", "X"), field("h", "X"), lit("a")]))])),
+            star(seq(vec![field("f", "X"), field("k", "K"), lit("a")])),
+            choice(vec![seq(vec![field("f", "X"), field("g", "X"), lit("a")]), lit("")]),
         ];
         let middles = vec![field("t", "T"), field("k", "K"), rref("D"), field("f", "X"), lit("b"), rref("char"), range('b', 'c'), ilit("B")];
         let tails = vec![lit("c"), Expr::Eoi, lit("a"), seq(vec![lit("b"), lit("a")])];
